@@ -28,6 +28,8 @@ case "${1:-}" in
     f="${2:?replay needs a file}"
     id="$(python3 -c 'import json,sys;print(json.load(open(sys.argv[1]))["property"])' "$f")" || exit 2
     bin="$(echo "$id" | tr 'A-Z' 'a-z')"
+    # the serde half of C02 is its own small binary: its whole enumeration is re-run (milliseconds)
+    if grep -q '"deserialized-stats"' "$f"; then build c02s || exit 2; exec "$CARGO_TARGET_DIR/release/c02s" quick; fi
     build "$bin" || { echo "MACHINERY-ERROR: harness build failed for $bin" >&2; exit 2; }
     exec "$CARGO_TARGET_DIR/release/$bin" replay "$f" ;;
   C[0-9][0-9])
